@@ -94,7 +94,7 @@ def gen_definition(rng, idx):
     for i in range(rng.choice([1, 1, 2, 3])):
         d["pos"].append({"name": "arg%d" % i,
                          "type": rng.choice([["string"], ["string", "stringlist"],
-                                             ["number"], ["string"]])})
+                                             ["number"], ["string"], ["stringlist"]])})
     if rng.random() < 0.3:
         # a second command whose class DERIVES from this one's class and extends its
         # definition (one more required argument, sometimes one more tag slot); it is used
